@@ -163,7 +163,7 @@ def job_pp(job, n, labelled=False, pdtype="f8"):
             job.validate("pseudopressure_threephase", evalf(res[0].value[0].d[j], env, ufs), float(real[j]), abs_=1e-9 * abs(float(real[-1])), inputs=env)
 
 
-def replay_table(model, n=3, node=1):
+def replay_table(model, n=3, node=1, kr_desc=False):
     import numpy as np
     import warnings
     from bluebonnet.flow import flowproperties as fp
@@ -172,11 +172,15 @@ def replay_table(model, n=3, node=1):
         [f"{c}{k}" for c in KR_FUNCS for k in range(2)] + ["phi", "Sw", "pf"]
     m = model_floats(model, names, default={k: 0.5 for k in names})
     pvt = {"pressure": np.array([m[f"p{k}"] for k in range(n)]), "pseudopressure": np.zeros(n)}
+    if np.any(np.diff(pvt["pressure"]) <= 0) or pvt["pressure"][0] <= 0:
+        return False, {"what": "model point outside the property's quantifier (table pressures must be positive and strictly increasing)", "inputs": m}
     for c in cols:
         pvt[c] = np.array([m[f"{c}{k}"] for k in range(n)])
     krp = {"So": np.array([0.0, 1.0]), "Sg": np.array([1.0, 0.0]), "Sw": np.array([0.0, 0.0])}
     for c in KR_FUNCS:
         krp[c] = np.array([m[f"{c}{k}"] for k in range(2)])
+    if kr_desc:
+        krp = {k: v[::-1].copy() for k, v in krp.items()}      # the rel-perm table listed by decreasing So (increasing Sg)
     with warnings.catch_warnings():
         warnings.simplefilter("ignore")
         with np.errstate(all="ignore"):
@@ -185,6 +189,20 @@ def replay_table(model, n=3, node=1):
             mi = float(obj.m_i)
             mf = float(obj.m_scaled_func(m["pf"])) if m[f"p0"] <= m["pf"] <= m[f"p{n - 1}"] else None
     problems = []
+    # the interpolators from_table hands to the mobility / storage functions reproduce the caller's tables
+    with np.errstate(all="ignore"):
+        for c in KR_FUNCS:
+            for s0, v in list(zip(krp["So"], krp[c])) + [(0.25, 0.75 * krp[c][list(krp["So"]).index(0.0)] + 0.25 * krp[c][list(krp["So"]).index(1.0)])]:
+                got = float(obj.kr[c](s0))
+                if not abs(got - v) <= 1e-9 * (abs(v) + 1e-300):
+                    problems.append(f"kr[{c!r}]({s0!r}) = {got!r} but the table gives {float(v)!r} (So rows {krp['So'].tolist()})")
+                    break
+        for c in cols[:-1]:
+            for j in range(n):
+                got = float(obj.pvt[c](pvt["pressure"][j]))
+                if not abs(got - pvt[c][j]) <= 1e-9 * (abs(pvt[c][j]) + 1e-300):
+                    problems.append(f"pvt[{c!r}]({pvt['pressure'][j]!r}) = {got!r} but the table gives {float(pvt[c][j])!r}")
+                    break
     if not np.all(np.isfinite(ms)) or np.any(np.diff(ms) <= 0):
         problems.append(f"m-scaled {ms.tolist()} is not strictly increasing")
     if not abs(mi - 1) <= 1e-9:
@@ -194,7 +212,7 @@ def replay_table(model, n=3, node=1):
     return bool(problems), {"what": "; ".join(problems) or "scaled pseudopressure increasing, 1 at p_i, frac face in [0,1)", "inputs": m}
 
 
-def job_table(job, n, node):
+def job_table(job, n, node, kr_desc=False):
     """from_table: plumbing into the wrapper + wrapper behaviour for any computed pseudopressure that
     satisfies what job_pp establishes (0 at the first row, strictly increasing)."""
     rec = {}
@@ -228,6 +246,10 @@ def job_table(job, n, node):
     krt = {"So": SymArray([Q(0), Q(1)], "f8"), "Sg": SymArray([Q(1), Q(0)], "f8"), "Sw": SymArray([Q(0), Q(0)], "f8")}
     for c in KR_FUNCS:
         krt[c] = SymArray([fresh(f"{c}{k}", pos=True) for k in range(2)], "f8")
+    if kr_desc:
+        # the same rel-perm table listed by decreasing So (the gas-oil layout by increasing Sg)
+        krt = {k: SymArray(list(reversed(v.d)), "f8") for k, v in krt.items()}
+        job.bound(kr_table_order="rows listed by decreasing So")
     vs, rdom = box(None, rho_o0=("0.1", 100), rho_g0=("0.001", 10), rho_w0=("0.1", 100), phi=("0.01", 1), Sw=(0, "0.5"), pf=(10, 30000))
     dom = dom + rdom + [T.b_le(P(ps[0]), P(vs["pf"])), T.b_lt(P(vs["pf"]), P(ps[node]))]
     ref = {k: vs[k] for k in RHO}
@@ -238,17 +260,17 @@ def job_table(job, n, node):
         return obj, obj.m_scaled_func(vs["pf"]), dict(rec)
 
     res = paths(job, run, dom, max_paths=64)
-    rp = (replay_table, {"n": n, "node": node})
+    rp = (replay_table, {"n": n, "node": node, "kr_desc": kr_desc})
     normal = 0
     for k, pr in enumerate(res):
         if pr.exc is not None:
             what = "scaled pseudopressure not monotone" if isinstance(pr.exc, SS.NonMonotoneAbscissae) else "raises"
-            job.prove(f"table[{n},{node}]/{what}[path{k}]", pr.pc, bound="admissible table", note=repr(pr.exc)[:100], replay=rp)
+            job.prove(f"table[{n},{node}{',kr rows by decreasing So' if kr_desc else ''}]/{what}[path{k}]", pr.pc, bound="admissible table", note=repr(pr.exc)[:100], replay=rp)
             continue
         normal += 1
         obj, mf, r = pr.value
         ms = obj.pvt_props["m-scaled"].d
-        job.prove(f"table[{n},{node}]/reach[path{k}]", pr.pc, expect="sat")
+        job.prove(f"table[{n},{node}{',kr rows by decreasing So' if kr_desc else ''}]/reach[path{k}]", pr.pc, expect="sat")
         # plumbing: the computed pseudopressure / diffusivity (not the table's own column) reach the wrapper
         plumbing = []
         if "pp" not in r or "alpha" not in r:
@@ -267,21 +289,21 @@ def job_table(job, n, node):
         for c in RHO:
             plumbing.append(T.b_eq(P(pvt_used[c]), P(vs[c])))
         for c in KR_FUNCS:
-            for j, s0 in enumerate((Q(0), Q(1))):
+            for j, s0 in enumerate(krt["So"].d):
                 plumbing.append(T.b_eq(P(kr_used[c](s0)), P(krt[c].d[j])))
-        job.prove(f"table[{n},{node}]/computed pseudopressure and diffusivity are what the wrapper stores; interpolators "
+        job.prove(f"table[{n},{node}{',kr rows by decreasing So' if kr_desc else ''}]/computed pseudopressure and diffusivity are what the wrapper stores; interpolators "
                   f"reproduce the table[path{k}]", pr.pc + [T.b_not(T.b_and(*plumbing))], bound=f"{n}-row table", replay=rp)
-        job.prove(f"table[{n},{node}]/m-scaled strictly increasing[path{k}]",
+        job.prove(f"table[{n},{node}{',kr rows by decreasing So' if kr_desc else ''}]/m-scaled strictly increasing[path{k}]",
                   pr.pc + [T.b_or(*[T.b_le(P(ms[j + 1]), P(ms[j])) for j in range(n - 1)])], bound=f"{n}-row table", replay=rp)
-        job.prove(f"table[{n},{node}]/m_i==1[path{k}]", pr.pc + [not_close(obj.m_i, Q(1))], bound=f"{n}-row table", replay=rp)
-        job.prove(f"table[{n},{node}]/frac-face maps into [0,1)[path{k}]",
+        job.prove(f"table[{n},{node}{',kr rows by decreasing So' if kr_desc else ''}]/m_i==1[path{k}]", pr.pc + [not_close(obj.m_i, Q(1))], bound=f"{n}-row table", replay=rp)
+        job.prove(f"table[{n},{node}{',kr rows by decreasing So' if kr_desc else ''}]/frac-face maps into [0,1)[path{k}]",
                   pr.pc + [T.b_or(T.b_lt(P(mf), T.ZERO), T.b_le(T.ONE, P(mf)))], bound=f"{n}-row table", replay=rp)
         seen = set()
         for cond, why in pr.ctx.defined:
             if cond.id in seen:
                 continue
             seen.add(cond.id)
-            job.prove(f"table[{n},{node}]/finite[path{k}][{len(seen)}]", pr.pc + [T.b_not(cond)], bound=f"{n}-row table", note=why[:100], replay=rp)
+            job.prove(f"table[{n},{node}{',kr rows by decreasing So' if kr_desc else ''}]/finite[path{k}][{len(seen)}]", pr.pc + [T.b_not(cond)], bound=f"{n}-row table", note=why[:100], replay=rp)
     if not normal:
         job.errors.append(f"table[{n},{node}]: no path constructs the object")
 
@@ -291,5 +313,6 @@ def jobs(tier):
            ("pp3-int-pressure", lambda j: job_pp(j, 3, pdtype="i8"))]
     if tier != "quick":
         out += [("pp4", lambda j: job_pp(j, 4)), ("pp5", lambda j: job_pp(j, 5))]
-    out += [("table3-node1", lambda j: job_table(j, 3, 1)), ("table3-node2", lambda j: job_table(j, 3, 2))]
+    out += [("table3-node1", lambda j: job_table(j, 3, 1)), ("table3-node2", lambda j: job_table(j, 3, 2)),
+            ("table3-node1-kr-descending", lambda j: job_table(j, 3, 1, True))]
     return out
